@@ -4,6 +4,7 @@ import (
 	"errors"
 	"fmt"
 	"io"
+	"math"
 	"strings"
 
 	sse "github.com/tmaxmax/go-sse"
@@ -87,12 +88,18 @@ func runLimitsWorld(rc *RunCtx) *Outcome {
 	}
 	limits := []int{0, 16, 64, 100, 4096, 5000, 65536, 131072}
 	limit := limits[ch.Weighted([]int{4, 2, 3, 2, 2, 2, 1, 1}, "limit")]
+	// "no limit to speak of": the idiom for unlimited events is a maximum nobody will ever reach
+	huge := ch.Chance(1, 12, "practically unlimited maximum")
+	if huge {
+		limit = []int{math.MaxInt, 1 << 50, math.MaxInt32}[ch.Intn(3, "huge maximum")]
+		o.probe("practically unlimited maximum event size")
+	}
 	var buf []byte
 	effective := limit
 	if limit == 0 {
 		effective = defaultMaxEvent
 	}
-	if entry == "Connection" && ch.Chance(1, 3, "caller buffer") {
+	if !huge && entry == "Connection" && ch.Chance(1, 3, "caller buffer") {
 		bufCap := 0
 		if limit > 0 {
 			bufCap = []int{8, 64, limit / 2, limit, limit * 2}[ch.Intn(5, "buffer capacity")]
@@ -117,6 +124,11 @@ func runLimitsWorld(rc *RunCtx) *Outcome {
 	eol := []string{"\n", "\r\n", "\r"}[ch.Intn(3, "eol")]
 	g := &genReader{ch: ch, chunkMax: 2 * effective, hardCap: 6*effective + 1<<16, endErr: io.EOF}
 	kind := ch.Weighted([]int{2, 2, 2, 2, 6}, "stream kind")
+	if huge {
+		// nothing is oversized under such a maximum: finite streams only, sizes around the usual marks
+		g.chunkMax, g.hardCap = 1<<17, 1<<40
+		kind = 4
+	}
 	var sb strings.Builder
 	// a few small complete events first
 	nPre := ch.Range(0, 3, "complete events first")
@@ -144,7 +156,7 @@ func runLimitsWorld(rc *RunCtx) *Outcome {
 	default:
 		endless = false
 		// finite: events sized around interesting boundaries
-		if ch.Chance(1, 5, "run of keep-alive blocks longer than the limit") && effective <= 70000 {
+		if !huge && ch.Chance(1, 5, "run of keep-alive blocks longer than the limit") && effective <= 70000 {
 			// each comment-only block is a complete, tiny block of its own: however many follow each
 			// other, nothing is oversized
 			n := effective/len(": ka"+eol+eol) + ch.Range(1, 20, "extra keep-alives")
@@ -154,6 +166,9 @@ func runLimitsWorld(rc *RunCtx) *Outcome {
 		nEv := ch.Range(1, 4, "sized events")
 		for i := 0; i < nEv; i++ {
 			targets := []int{effective - 2, effective - 1, effective, effective + 1, effective + 2, effective / 2, 4094, 4096, 4097, 65535, 65536, 65537, 10}
+			if huge {
+				targets = []int{10, 4094, 4096, 4097, 65535, 65536, 65537, 200000, 10, 4096, 65536, 70000, 100}
+			}
 			target := targets[ch.Intn(len(targets), "event size")]
 			if target < 8 {
 				target = 8
@@ -253,7 +268,7 @@ func runLimitsWorld(rc *RunCtx) *Outcome {
 		return o
 	}
 	tooLong := obs.err != nil && strings.Contains(obs.err.Error(), "token too long")
-	if obs.err != nil && pulled-lastEnd > effective+slack {
+	if !huge && obs.err != nil && pulled-lastEnd > effective+slack {
 		o.violate("C20", "read-beyond-limit", "%s: %d bytes were pulled beyond the last completed event (ending at offset %d) before the error %v; limit %d", desc, pulled-lastEnd, lastEnd, obs.err, effective)
 		return o
 	}
